@@ -148,14 +148,32 @@ pub fn redraw_many(states: &[(WorldCfg, Vec<Ev>)], sizes: &[(u16, u16)]) -> Vec<
                 // deterministic hang of the frame
                 let size: Option<(u16, u16)> = stage.rsplit(' ').next().and_then(|wh| wh.split_once('x')).and_then(|(w, h)| Some((w.parse().ok()?, h.parse().ok()?)));
                 let alone = again && size.is_some_and(|sz| matches!(explore::run_jobs(vec![(job.0.clone(), job.1.clone(), vec![sz])], redraw_job).pop(), Some(explore::Done::Hung { .. })));
+                // ... unless it returns when the thread's hash maps are seeded differently: a loop whose
+                // termination depends on hash-map iteration order is the layout solver's again
+                let mut other_seed_returns = false;
+                if alone {
+                    if let Some(sz) = size {
+                        for seed in [1u8, 3, 5] {
+                            vcore::vclock::set_hash_seed_override(Some(seed));
+                            let r = explore::run_jobs(vec![(job.0.clone(), job.1.clone(), vec![sz])], redraw_job).pop();
+                            vcore::vclock::set_hash_seed_override(None);
+                            if matches!(r, Some(explore::Done::Ok(_))) {
+                                other_seed_returns = true;
+                                break;
+                            }
+                        }
+                    }
+                }
                 let key = if !again {
                     "never-returns:draw:not-reproducible"
+                } else if other_seed_returns {
+                    "never-returns:draw-resized:hash-order-dependent"
                 } else if alone || size.is_none() {
                     "never-returns:draw-resized"
                 } else {
                     "never-returns:draw-resized:only-after-other-sizes"
                 };
-                vec![((0, 0), StepFail { phase: "hang".into(), key: key.into(), detail: format!("no return within {} s while {stage}{}", explore::JOB_TIMEOUT_S, if !again { "; the same state drew normally when replayed again" } else if alone { "; also when that size is drawn on its own" } else { "; the same state at that size alone draws normally - it needs the sizes drawn before it" }) })]
+                vec![((0, 0), StepFail { phase: "hang".into(), key: key.into(), detail: format!("no return within {} s while {stage}{}", explore::JOB_TIMEOUT_S, if !again { "; the same state drew normally when replayed again" } else if other_seed_returns { "; also when that size is drawn on its own - but it returns at once when the thread's hash maps are seeded differently" } else if alone { "; also when that size is drawn on its own, whatever the hash seed" } else { "; the same state at that size alone draws normally - it needs the sizes drawn before it" }) })]
             }
             explore::Done::Crashed(m) => panic!("MACHINERY: a redraw job crashed: {m}"),
         })
